@@ -338,4 +338,57 @@ func runC12(c *core.Ctx) {
 		heads := loopHeads(g)
 		o.Require(len(heads) == 1 && heads[0].Cond.Range != nil && strings.HasPrefix(core.ExprStr(heads[0].Cond.Range.X), "csr"), "minLength does not iterate over all ranges")
 	})
+	c.Check("C12-R6", pkg+".canMerge/both-bounds", "two ranges agree in a byte position only if both their lower and their upper bounds agree: wherever canMerge tests the upper bounds of its two arguments for equality it tests the lower bounds as well (otherwise ranges with different lower bounds are reported merged and CodeSpaceRange() describes codes the codec rejects)", func(o *core.Ob) {
+		fn := c.Prog.Func(pkg, "canMerge")
+		info := fn.Info()
+		o.At(fn.Site(fn.Decl, ""))
+		count := map[string]int{}
+		field := func(e ast.Expr) string {
+			// r.Low[i], r.Low[a:], r.Low
+			for {
+				switch x := ast.Unparen(e).(type) {
+				case *ast.IndexExpr:
+					e = x.X
+					continue
+				case *ast.SliceExpr:
+					e = x.X
+					continue
+				case *ast.SelectorExpr:
+					if x.Sel.Name == "Low" || x.Sel.Name == "High" {
+						return x.Sel.Name
+					}
+				}
+				return ""
+			}
+		}
+		ast.Inspect(fn.Decl.Body, func(n ast.Node) bool {
+			switch x := n.(type) {
+			case *ast.BinaryExpr:
+				if x.Op == token.EQL || x.Op == token.NEQ {
+					if _, isConv := ast.Unparen(x.X).(*ast.CallExpr); isConv {
+						return true // int(r.High[i])+1 == int(s.Low[i]) is the adjacency test, not an agreement test
+					}
+					if _, isBin := ast.Unparen(x.X).(*ast.BinaryExpr); isBin {
+						return true
+					}
+					l, r := field(x.X), field(x.Y)
+					if l != "" && l == r {
+						count[l]++
+					}
+				}
+			case *ast.CallExpr:
+				if k := core.CalleeKey(info, x); (k == "bytes.Equal" || k == "slices.Equal") && len(x.Args) == 2 {
+					l, r := field(x.Args[0]), field(x.Args[1])
+					if l != "" && l == r {
+						count[l]++
+					}
+				}
+			}
+			return true
+		})
+		o.Count(count["Low"] + count["High"] + 1)
+		o.Fact("agreement tests: Low %d, High %d", count["Low"], count["High"])
+		o.Require(count["Low"] >= 1 && count["High"] >= 1, "canMerge does not compare the bounds of its arguments")
+		o.Require(count["Low"] == count["High"], "canMerge tests the lower bounds for agreement %d time(s) but the upper bounds %d time(s)", count["Low"], count["High"])
+	})
 }
